@@ -91,10 +91,9 @@ def model_and_replay(name, outlines, oracles, crash_sets=((),), invariants=(), m
     procs = procs or min(16, os.cpu_count() or 1)
     n = max(1, len(keys) // (procs * 4))
     chunks = [keys[i:i + n] for i in range(0, len(keys), n)]
-    ctx = multiprocessing.get_context('fork')
-    with ctx.Pool(procs) as pool:
-        for r in pool.imap_unordered(_run_chunk, chunks):
-            out['mismatches'].extend(r)
+    from . import pools
+    for r in pools.fork_map(_run_chunk, chunks, procs):
+        out['mismatches'].extend(r)
     _G.clear()
     out['replay_s'] = time.time() - t1
     return out
